@@ -5,7 +5,7 @@
    the reference: a table of (score, member) entries whose answers are read off the table
    sorted by score and then by member (C11/Spec.v). *)
 From Coq Require Import ZArith List Bool.
-From FV Require Import C11.Spec C11.Model C11.Proofs.
+From FV Require Import C11.Spec C11.Model C11.LaneModel C11.Proofs.
 Import ListNotations.
 Open Scope Z_scope.
 
@@ -101,6 +101,65 @@ Example c11_example_lanes :
     [(1%nat, (10, 1)); (3%nat, (10, 4)); (1%nat, (20, 2)); (2%nat, (20, 7)); (1%nat, (30, 3))] in
   search (fun x => before x 20 7) 3 0 nodes = (3%nat, [(2%nat, (20, 7)); (1%nat, (30, 3))]) /\
   scan (fun x => before x 20 7) 0 nodes = (3%nat, [(2%nat, (20, 7)); (1%nat, (30, 3))]).
+Proof. vm_compute. split; reflexivity. Qed.
+
+(* stage 2: the real skip list.  C11/LaneModel.v transcribes zskiplist.go with its express
+   lanes: a heap of nodes with per-level forward references and spans, backward references,
+   tail, length, level; Insert / deleteNode / Delete / the range deletions with the code's
+   update[] and rank[] arrays and span arithmetic; node heights come from an oracle list.
+   For ALL operation sequences and ALL height oracles the structural invariant LInv holds
+   (C11/LaneSearch.v: distinct members; every height between 1 and zsl.level; in every lane i
+   below zsl.level the forward reference of a node is the next node of height > i and its span
+   the rank distance, the last node of a lane has forward nil and span = the number of nodes
+   after it; header levels above zsl.level have forward nil; backward references, tail and
+   length), zsl.level is the largest height (LTight), the level-0 chain is exactly the list of
+   the stage-1 model and the member table is the stage-1 table — hence, with
+   c11_refines_ranking, the chain is the reference ranking. *)
+Theorem c11_lane_invariant :
+  forall (orc : list nat) (ops : list op),
+    let l := fst (lrun (lzempty orc) ops) in
+    let z0 := fst (run empty ops) in
+    exists L, LInv (lz l) L /\ LTight (lz l) L /\ map ent L = zsl z0 /\ ldict l = dict z0.
+Proof. exact lane_model_invariant. Qed.
+Print Assumptions c11_lane_invariant.
+
+(* the two pointer-surgery lemmas behind it, for every height and every position *)
+Theorem c11_insert_preserves_lanes :
+  forall z A B s e h0,
+    LInv z (A ++ B) -> LTight z (A ++ B) ->
+    holds_from (Pins s e) 0 A -> fails_from (Pins s e) (Z.of_nat (length A)) B ->
+    ~ In e (map le (A ++ B)) ->
+    exists z', linsert z s e h0 = Some z' /\
+      LInv z' (A ++ mkN s e (clamp_height h0) :: B) /\ LTight z' (A ++ mkN s e (clamp_height h0) :: B).
+Proof. exact linsert_ok. Qed.
+Print Assumptions c11_insert_preserves_lanes.
+
+Theorem c11_delete_node_preserves_lanes :
+  forall z A xn B a,
+    LInv z (A ++ xn :: B) -> (forall j, (j < llevel z)%nat -> arr_get a j = upd_of A j) ->
+    exists z', ldelete_node z (le xn) a = Some z' /\ LInv z' (A ++ B) /\ LTight z' (A ++ B) /\
+               (llevel z' <= llevel z)%nat.
+Proof. exact ldelete_node_ok. Qed.
+Print Assumptions c11_delete_node_preserves_lanes.
+
+(* the lane model returns what the stage-1 model returns.  Proved so far for the calls in
+   [covered] (Add, Remove, RemoveRangeByScore, RemoveRangeByRank, GetScore, Len); for GetRank,
+   GetRange, Count and GetRangeByScore the equality of results is checked on every run by the
+   differential comparison only.  Full statement (all calls):
+     forall orc ops, snd (lrun (lzempty orc) ops) = snd (run empty ops) *)
+Theorem c11_lane_results_partial :
+  forall (orc : list nat) (ops : list op),
+    let los := snd (lrun (lzempty orc) ops) in
+    let os := snd (run empty ops) in
+    Forall2 (fun o xy => covered o = true -> fst xy = snd xy) ops (combine los os).
+Proof. exact lane_model_results_partial. Qed.
+Print Assumptions c11_lane_results_partial.
+
+Example c11_example_lane_model :
+  let ops := [Add 1 10; Add 2 20; Add 3 30; Add 4 20; Count 10 20; GetRank 4 false; GetRange (-2) (-1) true;
+              RemByScore 10 20; Len; Add 3 5; RemByRank (-1) (-1); GetRangeByScore 0 9 false] in
+  snd (lrun (lzempty [2; 1; 4; 1; 3]%nat) ops) = snd (run empty ops) /\
+  llevel (lz (fst (lrun (lzempty [2; 1; 4; 1; 3]%nat) ops))) = 1%nat.
 Proof. vm_compute. split; reflexivity. Qed.
 
 (* non-vacuity: the history of defect 20 — scores {10, 20, 30}, RemoveRangeByScore(10, 20)
